@@ -217,6 +217,11 @@ func fbs() []byte    { return gbs }
 func ff() float64    { return gf }
 func f2() (int, int) { return gi, gj }
 func fba(b bool) bool { return b }
+
+// constants that other files of the package pass to regexp functions
+const gPat = "[a-z][a-z]*"
+const gPat2 = "(foo|foo)x{1,1}[0-9]"
+const gPat3 = "http://example.com/a.b"
 `
 
 var pools = map[string][]string{
